@@ -1,6 +1,8 @@
 package main
 
 import (
+	"syscall"
+	"os/signal"
 	"encoding/json"
 	"flag"
 	"fmt"
@@ -12,6 +14,14 @@ import (
 )
 
 func main() {
+	sigc := make(chan os.Signal, 1)
+	signal.Notify(sigc, syscall.SIGTERM, syscall.SIGINT, syscall.SIGHUP)
+	go func() {
+		<-sigc
+		sym.KillAllSolvers()
+		fmt.Println("INCONCLUSIVE: interrupted")
+		os.Exit(2)
+	}()
 	if len(os.Args) < 2 {
 		fmt.Println("usage: gosym run|check ...")
 		os.Exit(2)
